@@ -97,6 +97,10 @@ type Sched struct {
 	// Caller: 0 Send is called from a goroutine of its own, 1 from the one goroutine that calls all such Sends of the
 	// sequence back to back
 	Caller int `json:"caller,omitempty"`
+	// Detach (with HoldGate, no cancellation): the driver does not wait for this Send to return — only until its gated node is
+	// parked inside Process; the Send stays IN FLIGHT (mid-walk when the gated node is a root) during the next step and is let
+	// go, and must then return, after it
+	Detach bool `json:"detach,omitempty"`
 }
 
 // Step is a further Send on the same Broker: registry calls made after the previous Send, then the Send.
@@ -108,6 +112,14 @@ type Step struct {
 	Async []Op `json:"async,omitempty"`
 	// StressMs: before Ops, for this many milliseconds, four goroutines Send events of type StressEty as fast as they can
 	// while a fifth toggles both thresholds of that type; unrecorded (no trace); every one of those Sends must return
+	// Callback step (before Ops): CbOps are Broker calls that run node callbacks — {"k":"reopen"} (Broker.Reopen -> Reopen()),
+	// rmnode / rpan (-> Close()); the first node among CbObjs (any node when empty) whose callback runs starts CbWriter on another
+	// goroutine, waits 60 ms and calls Send(CbEty) with a 300 ms timeout from inside the callback. The Broker call, the writer
+	// and that Send must all return.
+	CbOps    []Op  `json:"cb_ops,omitempty"`
+	CbWriter []Op  `json:"cb_writer,omitempty"`
+	CbObjs   []int `json:"cb_objs,omitempty"`
+	CbEty    int   `json:"cb_ety,omitempty"`
 	StressMs  int `json:"stress_ms,omitempty"`
 	StressEty int `json:"stress_ety,omitempty"`
 	Ety   int   `json:"ety"`
@@ -273,7 +285,8 @@ type hnode struct {
 // it like any other node
 type vnode struct{ h *hnode }
 
-func (v vnode) Reopen() error     { return nil }
+func (v vnode) Reopen() error                   { return v.h.Reopen() }
+func (v vnode) Close(ctx context.Context) error { return v.h.Close(ctx) }
 func (v vnode) Type() el.NodeType { return v.h.typ }
 func (v vnode) Process(ctx context.Context, e *el.Event) (*el.Event, error) {
 	return v.h.Process(ctx, e)
@@ -288,7 +301,47 @@ func objOf(n el.Node) int {
 	return 0
 }
 
-func (n *hnode) Reopen() error     { return nil }
+func (n *hnode) Reopen() error                   { n.w.callbackSend(n.obj); return nil }
+func (n *hnode) Close(ctx context.Context) error { n.w.callbackSend(n.obj); return nil }
+
+// callbackSend: while a callback step is armed, the first armed node whose Reopen / Close runs starts the step's third-party
+// write-locking call on a goroutine of its own, waits 60 ms, and then calls Send (context with a 300 ms timeout) from inside the
+// callback; whether and when that Send returned is recorded
+func (w *world) callbackSend(obj int) {
+	w.cbMu.Lock()
+	cb := w.cb
+	if cb == nil || cb.fired || (len(cb.objs) > 0 && !cb.objs[obj]) {
+		w.cbMu.Unlock()
+		return
+	}
+	cb.fired = true
+	w.cbMu.Unlock()
+	go func() {
+		defer close(cb.writerDone)
+		for _, op := range cb.writer {
+			w.apply(op, w.c)
+		}
+	}()
+	time.Sleep(60 * time.Millisecond)
+	ctx, cancel := context.WithTimeout(context.Background(), 300*time.Millisecond)
+	defer cancel()
+	start := time.Now()
+	_, _ = w.b.Send(ctx, ety(cb.ety), "sent from inside a node callback")
+	w.cbMu.Lock()
+	cb.sendReturned = true
+	cb.sendTook = time.Since(start)
+	w.cbMu.Unlock()
+	close(cb.sendDone)
+}
+
+type cbState struct {
+	ety                  int
+	objs                 map[int]bool
+	writer               []Op
+	fired, sendReturned  bool
+	sendTook             time.Duration
+	writerDone, sendDone chan struct{}
+}
 func (n *hnode) Type() el.NodeType { return n.typ }
 func (n *hnode) Process(ctx context.Context, e *el.Event) (*el.Event, error) {
 	r := n.w.recFor(ctx, e)
@@ -341,7 +394,7 @@ func (n *hnode) Process(ctx context.Context, e *el.Event) (*el.Event, error) {
 		// the SAME event, mutated (what a formatter does) and returned
 		e.FormattedAs(fmt.Sprintf("by-%d", n.obj), []byte{byte(visit)})
 		out = e
-	case 90, 91, 92, 93, 94, 95, 96, 97:
+	case 90, 91, 92, 93, 94, 95, 96, 97, 98:
 		err = stdErr(n.obj, visit, code)
 	case 110:
 		// writes the exported format table directly (no FormattedAs): must stay private to this Send's Event
@@ -475,6 +528,10 @@ type rec struct {
 	gate                                                map[int]bool
 	clock                                               *time.Time
 	anyCall                                             bool
+	lazy                                                bool // the registry snapshot is taken at the first hook callback
+	lazyRes                                             *Result
+	duringThird                                         []Op // registry calls a third party made while this Send was in flight
+	parked                                              bool // a gated node of this Send is inside Process
 	dirtied                                             bool // a node of this Send overwrote Payload / Type of the shared Event
 	during                                              []Op // registry calls made by nodes during this Send
 	w                                                   *world
@@ -526,6 +583,10 @@ func errID(err error) (id int) {
 // well-known and odd error values (codes 90..97): a bare standard sentinel, a sentinel wrapped with %w, the context
 // package's own errors returned by a node of its own accord, a custom comparable type with Is / Timeout / Temporary,
 // errors.Join, a typed nil pointer inside the error interface, an *os.PathError around a syscall error
+type derefErr struct{ msg string }
+
+func (e *derefErr) Error() string { return e.msg } // panics on a nil receiver, like most pointer-receiver Error methods
+
 type oddErr struct{ n int }
 
 func (e oddErr) Error() string        { return fmt.Sprintf("odd error %d", e.n) }
@@ -554,8 +615,13 @@ func stdErr(obj, visit, code int) error {
 	case 95:
 		return regErr(errors.Join(regErr(&herr{id: obj*1000 + 700 + visit}, freshErrID()), io.ErrClosedPipe), freshErrID())
 	case 96:
-		var typedNil *herr
+		// a typed nil pointer inside the error interface whose Error() dereferences the receiver: nobody may call it
+		var typedNil *derefErr
 		return fixed(typedNil, 999996)
+	case 98:
+		// the classic: `var merr *multierror.Error; return nil, merr` (its Error() panics on the nil receiver)
+		var merr *multierror.Error
+		return fixed(merr, 999998+1000)
 	}
 	return regErr(&os.PathError{Op: "write", Path: "/dev/null", Err: syscall.ENOSPC}, freshErrID())
 }
@@ -603,9 +669,10 @@ func (r *rec) waitGate() {
 		hold := r.sched.HoldGate
 		free := r.done || r.gateReleased || (!hold && (r.returned || (r.cancelled && r.sched.Mode == 2)))
 		// no cancellation will come (or it sits behind this node): do not block an uncancelled Send for ever
-		if !free && !r.cancelled && time.Since(start) > 30*time.Millisecond {
+		if !free && !r.cancelled && !(hold && r.sched.Detach) && time.Since(start) > 30*time.Millisecond {
 			free = true
 		}
+		r.parked = true
 		if !free && time.Since(start) > 10*time.Second {
 			free = true
 		}
@@ -634,18 +701,27 @@ func (r *rec) hook(name string, args ...interface{}) {
 	case "range.check", "root.start", "task.exit", "node.call", "node.ret", "send.before", "send.aborted", "send.delivered", "spawn":
 		ref = args[1]
 		pk, ok := r.refs[ref]
-		if !ok && len(r.during) > 0 && r.w != nil {
-			// a node registered a pipeline during this Send: learn its linked nodes
+		if !ok && (len(r.during) > 0 || len(r.duringThird) > 0 || r.lazy) && r.w != nil {
+			// a pipeline was registered during this Send (or the snapshot is taken lazily): learn the linked nodes
+			first := r.lazy && r.lazyRes != nil && len(r.refs) == 0
 			r.mu.Unlock()
 			roots, _ := r.w.b.VerifRoots(r.sentType)
 			r.mu.Lock()
+			var snap []snapPipe
 			for id, chain := range roots {
+				sp := snapPipe{Pid: unN(string(id))}
 				for kk, l := range chain {
 					if _, known := r.refs[l.Ref]; !known {
 						r.refs[l.Ref] = [2]int{unN(string(id)), kk}
 						r.refObj[l.Ref] = objOf(l.Node)
 					}
+					sp.Nodes = append(sp.Nodes, snapNode{ID: unN(string(l.ID)), Obj: objOf(l.Node), Sink: l.Node.Type() == el.NodeTypeSink})
 				}
+				snap = append(snap, sp)
+			}
+			if first {
+				sort.Slice(snap, func(i, j int) bool { return snap[i].Pid < snap[j].Pid })
+				r.lazyRes.Snapshot = snap
 			}
 			pk, ok = r.refs[ref]
 		}
@@ -772,6 +848,8 @@ func (r *rec) hook(name string, args ...interface{}) {
 
 // ---------- running one case ----------
 type world struct {
+	cbMu        sync.Mutex
+	cb          *cbState
 	c           *Case
 	reent       []Op
 	reentMu     sync.Mutex
@@ -861,6 +939,8 @@ func (w *world) apply(op Op, c *Case) {
 		_ = w.b.SetSuccessThreshold(ety(op.Ety), int(op.V))
 	case "thrs":
 		_ = w.b.SetSuccessThresholdSinks(ety(op.Ety), int(op.V))
+	case "reopen":
+		_ = w.b.Reopen(ctx)
 	default:
 		panic("unknown op " + op.K)
 	}
@@ -902,8 +982,10 @@ type Result struct {
 	SnapshotBlocked bool  `json:"read_only_registry_snapshot_blocked_for_2s,omitempty"`
 	StatusChangedLater bool `json:"returned_status_changed_after_later_calls,omitempty"`
 	During     []Op       `json:"registry_calls_made_by_nodes_during_this_send,omitempty"`
+	DuringThird []Op      `json:"registry_calls_made_by_a_third_party_while_this_send_was_in_flight,omitempty"`
 	StressSends int       `json:"stress_sends,omitempty"`
 	StressHung bool       `json:"stress_send_or_setter_did_not_return,omitempty"`
+	CallbackSend bool     `json:"a_node_callback_sent_an_event_before_this_send,omitempty"`
 	Panic      string     `json:"panic,omitempty"`
 	HoldTO     int        `json:"hold_timeouts,omitempty"`
 	RecvTO     int        `json:"recv_timeouts,omitempty"`
@@ -965,6 +1047,7 @@ func callerContext(kind int, pre bool) (context.Context, func()) {
 
 // flight is one Send under way / finished
 type flight struct {
+	detached bool
 	w      *world
 	r      *rec
 	res    Result
@@ -996,17 +1079,24 @@ func (w *world) startSend(etyN int, gate []int, sched Sched) *flight {
 		ok    bool
 	}
 	snapCh := make(chan snapT, 1)
-	go func() {
-		rs, ok := b.VerifRoots(ety(etyN))
-		snapCh <- snapT{rs, ok}
-	}()
 	var roots map[el.PipelineID][]el.VerifLinkedRef
-	select {
-	case sn := <-snapCh:
-		roots, res.HasGraph = sn.roots, sn.ok
-	case <-time.After(2 * time.Second):
-		res.SnapshotBlocked = true
+	if sched.Detach && sched.HoldGate {
+		// the snapshot helper itself walks the type's pipelines to the end; for a Send that is to be caught mid-walk as the FIRST
+		// walk after a registry change the snapshot is taken lazily, from the first hook callback of the Send
+		r.lazy, r.lazyRes = true, res
 		res.HasGraph = true
+	} else {
+		go func() {
+			rs, ok := b.VerifRoots(ety(etyN))
+			snapCh <- snapT{rs, ok}
+		}()
+		select {
+		case sn := <-snapCh:
+			roots, res.HasGraph = sn.roots, sn.ok
+		case <-time.After(2 * time.Second):
+			res.SnapshotBlocked = true
+			res.HasGraph = true
+		}
 	}
 	for id, chain := range roots {
 		sp := snapPipe{Pid: unN(string(id))}
@@ -1074,15 +1164,35 @@ func (w *world) startSend(etyN int, gate []int, sched Sched) *flight {
 	} else {
 		go call()
 	}
-	select {
-	case <-f.done:
-		res.Returned = true
-	case <-time.After(3 * time.Second):
-		// watchdog: Send did not return
-		r.mu.Lock()
-		r.done = true
-		r.mu.Unlock()
-		res.Goroutines = graphGoroutines()
+	if sched.Detach && sched.HoldGate {
+		// wait only until the gated node is parked (or the Send is over already)
+		deadline := time.Now().Add(3 * time.Second)
+		for {
+			r.mu.Lock()
+			parked := r.parked
+			r.mu.Unlock()
+			select {
+			case <-f.done:
+				res.Returned = true
+			default:
+			}
+			if parked || res.Returned || time.Now().After(deadline) {
+				break
+			}
+			time.Sleep(50 * time.Microsecond)
+		}
+		f.detached = !res.Returned
+	} else {
+		select {
+		case <-f.done:
+			res.Returned = true
+		case <-time.After(3 * time.Second):
+			// watchdog: Send did not return
+			r.mu.Lock()
+			r.done = true
+			r.mu.Unlock()
+			res.Goroutines = graphGoroutines()
+		}
 	}
 	router.Lock()
 	if router.starting == r {
@@ -1098,6 +1208,18 @@ func (f *flight) finish() Result {
 	r.mu.Lock()
 	r.gateReleased = true
 	r.mu.Unlock()
+	if f.detached && !res.Returned {
+		// the Send that was left in flight must return now that its node has been let go
+		select {
+		case <-f.done:
+			res.Returned = true
+		case <-time.After(3 * time.Second):
+			r.mu.Lock()
+			r.done = true
+			r.mu.Unlock()
+			res.Goroutines = graphGoroutines()
+		}
+	}
 	if !res.Returned {
 		f.cancel()
 		select {
@@ -1148,6 +1270,7 @@ func (f *flight) finish() Result {
 	res.NodeCalls = append([][2]int(nil), r.nodecalls...)
 	res.NodeRets = append([]tev(nil), r.noderets...)
 	res.During = append([]Op(nil), r.during...)
+	res.DuringThird = append([]Op(nil), r.duringThird...)
 	res.Event0OK = r.event0ok
 	res.Cancelled = r.cancelled
 	res.HoldTO, res.RecvTO, res.Unknown = r.holdTimeouts, r.recvTimeouts, r.unknownRefs
@@ -1289,6 +1412,44 @@ func execCase(c Case) []Result {
 	heldAt := -1
 	for i, st := range steps {
 		stressSends, stressHung := 0, false
+		cbFired := false
+		if len(st.CbOps) > 0 {
+			cb := &cbState{ety: st.CbEty, objs: map[int]bool{}, writer: st.CbWriter, writerDone: make(chan struct{}), sendDone: make(chan struct{})}
+			for _, o := range st.CbObjs {
+				cb.objs[o] = true
+			}
+			w.cbMu.Lock()
+			w.cb = cb
+			w.cbMu.Unlock()
+			callDone := make(chan struct{})
+			go func() {
+				defer close(callDone)
+				for _, op := range st.CbOps {
+					w.apply(op, &c)
+				}
+			}()
+			limit := time.After(3 * time.Second)
+			for _, ch := range []chan struct{}{callDone} {
+				select {
+				case <-ch:
+				case <-limit:
+					stressHung = true
+				}
+			}
+			w.cbMu.Lock()
+			cbFired = cb.fired
+			w.cb = nil
+			w.cbMu.Unlock()
+			if cbFired && !stressHung {
+				for _, ch := range []chan struct{}{cb.sendDone, cb.writerDone} {
+					select {
+					case <-ch:
+					case <-time.After(3 * time.Second):
+						stressHung = true
+					}
+				}
+			}
+		}
 		if st.StressMs > 0 {
 			stressSends, stressHung = w.stress(st.StressEty, st.StressMs)
 		}
@@ -1304,6 +1465,12 @@ func execCase(c Case) []Result {
 		case <-opsDone:
 		case <-time.After(3 * time.Second):
 			stressHung = true
+		}
+		if held != nil && held.detached {
+			// whatever is done to the registry now happens DURING the Send that is still in flight (its walk may or may not see it)
+			held.r.mu.Lock()
+			held.r.duringThird = append(append(held.r.duringThird, st.Ops...), st.Async...)
+			held.r.mu.Unlock()
 		}
 		if len(st.Async) > 0 {
 			done := make(chan struct{})
@@ -1321,9 +1488,9 @@ func execCase(c Case) []Result {
 			}
 		}
 		f := w.startSend(st.Ety, st.Gate, st.Sched)
-		f.res.StressSends, f.res.StressHung = stressSends, stressHung
+		f.res.StressSends, f.res.StressHung, f.res.CallbackSend = stressSends, stressHung, cbFired
 		flights = append(flights, f)
-		if st.Sched.HoldGate && f.res.Returned && i+1 < len(steps) {
+		if st.Sched.HoldGate && (f.res.Returned || f.detached) && i+1 < len(steps) {
 			// its gated nodes stay parked while the next Send runs
 			if held != nil {
 				results[heldAt] = held.finish()
@@ -1482,7 +1649,7 @@ func opLit(op Op) string {
 
 func caseLit(c Case, res Result) string {
 	var hist, trace, calls, rets, snap, during []string
-	for _, op := range res.During {
+	for _, op := range append(append([]Op{}, res.During...), res.DuringThird...) {
 		during = append(during, opLit(op))
 	}
 	for _, op := range c.Hist {
@@ -1570,6 +1737,12 @@ func (e *emitter) runSeq(c Case) []Result {
 	for i, res := range results {
 		e.nextID++
 		st := steps[i]
+		for _, op := range st.CbOps {
+			if op.K != "reopen" {
+				hist = append(hist, op)
+			}
+		}
+		hist = append(hist, st.CbWriter...)
 		hist = append(hist, st.Ops...)
 		hist = append(hist, st.Async...)
 		view := Case{ID: e.nextID, Gen: c.Gen, Hist: append([]Op{}, hist...), Ety: st.Ety, Beh: c.Beh, Gate: st.Gate, Sched: st.Sched}
@@ -1630,6 +1803,9 @@ func (e *emitter) account(c Case, res Result, inSeq bool) {
 	}
 	if len(res.During) > 0 {
 		e.stats["sends_during_which_nodes_changed_the_registry"]++
+	}
+	if res.CallbackSend {
+		e.stats["sends_issued_from_inside_reopen_or_close"]++
 	}
 	e.stats["stress_sends"] += res.StressSends
 	if res.StressHung {
@@ -1783,6 +1959,10 @@ func main() {
 			genClasses(e)
 		case "reentrant":
 			genReentrant(e)
+		case "unprintable":
+			genUnprintable(e)
+		case "callbacks":
+			genCallbacks(e)
 		case "stress":
 			genStress(e, *stressMs)
 		case "sequence":
